@@ -8,7 +8,15 @@ An abstract meta-model is a plain dict (JSON-able, so that it can be stored in r
                                           "prim" (payload: value)
    "enums": [[name, [literal names]]],
    "cprims": [{"name", "base", "parents": [..], "invs": [inv]}],
-   "classes": [{"name", "parents": [..], "props": [[name, type]], "invs": [inv]}]}
+   "classes": [{"name", "parents": [..], "props": [[name, type]], "invs": [inv]},
+   "decl_order": [name, ...]}             optional: order of the constrained primitives and
+                                          classes in the TEXT (default: cprims, classes).
+                                          "cprims" and "classes" themselves are always listed
+                                          parents first (that is what the Coq model gets); the
+                                          text may declare a constrained primitive before its
+                                          parent or after the classes that use it. A class is
+                                          never declared before its parent class (the front
+                                          end rejects that).
 
   type  = ["prim", p] | ["our", name] | ["list", type] | ["opt", type]
   inv   = {"e": expr, "tags": [tag]}      (model order = order of cls.invariants, i.e.
@@ -218,6 +226,18 @@ def lit_src(v) -> str:
     return repr(v) if not isinstance(v, str) else '"' + v + '"'
 
 
+def declaration_order(mm) -> List[str]:
+    """Names of constrained primitives and classes in text order (robust against names
+    removed by the shrinker and against a missing field)."""
+    names = [c["name"] for c in mm["cprims"]] + [c["name"] for c in mm["classes"]]
+    order = [n for n in mm.get("decl_order", []) if n in names]
+    order += [n for n in names if n not in order]
+    # classes keep their relative (parents-first) order
+    cls_names = [c["name"] for c in mm["classes"]]
+    it = iter(cls_names)
+    return [next(it) if n in cls_names else n for n in order]
+
+
 def render_source(mm) -> str:
     out: List[str] = []
     for fname, pattern in mm["patterns"]:
@@ -252,11 +272,14 @@ def render_source(mm) -> str:
                       f'    "d{counter[0]}"', ")"]
         return lines
 
-    for cp in mm["cprims"]:
+    def emit_cprim(cp):
+        nonlocal out
         out += inv_lines(cp["invs"])
         bases = ", ".join(cp["parents"]) if cp["parents"] else cp["base"]
         out += [f"class {cp['name']}({bases}):", "    pass", "", ""]
-    for c in mm["classes"]:
+
+    def emit_class(c):
+        nonlocal out
         out += inv_lines(c["invs"])
         head = f"class {c['name']}({', '.join(c['parents'])}):" if c["parents"] \
             else f"class {c['name']}:"
@@ -270,7 +293,7 @@ def render_source(mm) -> str:
         args += [f"{pn}: {type_src(pt)} = None" for pn, pt in optional]
         if not props:
             out += ["    pass", "", ""]
-            continue
+            return
         out += ["", f"    def __init__(self, {', '.join(args)}) -> None:"]
         for parent in c["parents"]:
             pprops = all_props(mm, parent)
@@ -283,6 +306,14 @@ def render_source(mm) -> str:
         if not c["props"] and not c["parents"]:
             out += ["        pass"]
         out += ["", ""]
+
+    cp_by = cprim_by_name(mm)
+    cls_by = class_by_name(mm)
+    for name in declaration_order(mm):
+        if name in cp_by:
+            emit_cprim(cp_by[name])
+        else:
+            emit_class(cls_by[name])
     out += ['__version__ = "dummy"', '__xml_namespace__ = "https://dummy.com"', ""]
     return "\n".join(out)
 
@@ -462,32 +493,50 @@ def gen_model(rng, profile: str = "mixed") -> dict:
     t_lo = rng.choice([0, 0, 1, 1, 2, 3, 5, 20])
     tgt_len = (t_lo, t_lo + rng.choice([0, 0, 1, 2, 4, 9, 40])) if rng.random() < 0.9 else None
 
-    # constrained primitives: chains
+    # constrained primitives: trees, or a deep chain (depth 3..5) in which EVERY level
+    # carries a recognised invariant (so that losing any ancestor is observable)
+    def cp_invariant(base, force_recognised):
+        r = rng.random()
+        if (r < 0.6 or not mm["patterns"] or base != "str") and (r < 0.85 or force_recognised):
+            op, c, side = _bound(rng, tgt_len)
+            if force_recognised and op == "!=":
+                op = "<=" if side == "L" else ">="
+                c = max(c, (tgt_len[1] if tgt_len else 5))
+            e = ["cmp", op, len_of(["name", "self"]), ["int", c]] if side == "L" \
+                else ["cmp", op, ["int", c], len_of(["name", "self"])]
+            tags = [] if op == "!=" or base == "int" else [["len", "self", op, c, side, None]]
+            return {"e": e, "tags": tags}
+        if mm["patterns"] and base == "str" and (r < 0.85 or force_recognised):
+            fs = rng.sample(mm["patterns"], min(len(mm["patterns"]), rng.choice([1, 1, 2])))
+            calls = [["call", f[0], [["name", "self"]]] for f in fs]
+            e = calls[0] if len(calls) == 1 else ["and", calls]
+            return {"e": e, "tags": [["pat", "self", f[0], None] for f in fs]}
+        return {"e": ["cmp", "!=", len_of(["name", "self"]), ["int", 3]], "tags": []}
+
+    deep_chain = profile != "small" and rng.random() < 0.4
+    chain_names: List[str] = []
+    if deep_chain:
+        depth = rng.choice([3, 3, 4, 5])
+        base = rng.choice(["str", "str", "str", "bytearray"])
+        for i in range(depth):
+            invs = [cp_invariant(base, True)]
+            if rng.random() < 0.3:
+                invs.append(cp_invariant(base, False))
+            mm["cprims"].append({"name": f"P{i}", "base": base,
+                                 "parents": [f"P{i - 1}"] if i > 0 else [], "invs": invs})
+            chain_names.append(f"P{i}")
     n_cp = rng.choice([0, 0, 1, 2, 3]) if profile != "small" else rng.choice([0, 1])
-    for i in range(n_cp):
+    if deep_chain:
+        n_cp = rng.choice([0, 0, 1])
+    for _ in range(n_cp):
+        i = len(mm["cprims"])
         parents = []
         base = rng.choice(["str", "str", "str", "bytearray", "int"])
         if i > 0 and rng.random() < 0.6:
             par = rng.choice(mm["cprims"])
             parents = [par["name"]]
             base = par["base"]
-        invs = []
-        for _ in range(rng.choice([0, 1, 1, 2, 3])):
-            r = rng.random()
-            if r < 0.6:
-                op, c, side = _bound(rng, tgt_len)
-                e = ["cmp", op, len_of(["name", "self"]), ["int", c]] if side == "L" \
-                    else ["cmp", op, ["int", c], len_of(["name", "self"])]
-                tags = [] if op == "!=" or base == "int" else [["len", "self", op, c, side, None]]
-                invs.append({"e": e, "tags": tags})
-            elif r < 0.85 and mm["patterns"] and base == "str":
-                fs = rng.sample(mm["patterns"], min(len(mm["patterns"]), rng.choice([1, 1, 2])))
-                calls = [["call", f[0], [["name", "self"]]] for f in fs]
-                e = calls[0] if len(calls) == 1 else ["and", calls]
-                invs.append({"e": e, "tags": [["pat", "self", f[0], None] for f in fs]})
-            else:
-                invs.append({"e": ["cmp", "!=", len_of(["name", "self"]), ["int", 3]],
-                             "tags": []})
+        invs = [cp_invariant(base, False) for _ in range(rng.choice([0, 1, 1, 2, 3]))]
         mm["cprims"].append({"name": f"P{i}", "base": base, "parents": parents, "invs": invs})
 
     # classes
@@ -517,12 +566,16 @@ def gen_model(rng, profile: str = "mixed") -> dict:
             kinds = ["str", "str", "optstr", "optstr", "bytes", "liststr"]
             if mm["cprims"]:
                 kinds += ["cp", "cp", "optcp", "listcp"]
+            if chain_names:
+                kinds += ["cp", "cp", "cp", "optcp", "listcp", "listcp"]
             if with_sets:
                 kinds += ["int", "str", "optstr"]
                 if mm["enums"]:
                     kinds += ["enum", "optenum"]
             k = rng.choice(kinds)
             cpn = rng.choice(mm["cprims"])["name"] if mm["cprims"] else None
+            if chain_names and rng.random() < 0.75:
+                cpn = rng.choice(chain_names[-2:])
             t = {"str": ["prim", "str"], "optstr": ["opt", ["prim", "str"]],
                  "bytes": ["prim", "bytearray"], "liststr": ["list", ["prim", "str"]],
                  "int": ["prim", "int"], "cp": ["our", cpn], "optcp": ["opt", ["our", cpn]],
@@ -617,6 +670,24 @@ def gen_model(rng, profile: str = "mixed") -> dict:
                                         "tags": [["expect_err", "set of another type"]]})
             elif lenable or strs:
                 cls["invs"].append(_junk_inv(rng, rng.choice(lenable or strs), mm))
+    # text order: the constrained primitives are declared in any order (descendants before
+    # their parents, after the classes that use them); classes stay parents-first
+    if mm["cprims"] and rng.random() < (0.85 if deep_chain else 0.5):
+        cps = [c["name"] for c in mm["cprims"]]
+        style = rng.choice(["reversed", "shuffled", "shuffled", "after-classes", "interleaved"])
+        if style == "reversed":
+            cps.reverse()
+        else:
+            rng.shuffle(cps)
+        cls_names = [c["name"] for c in mm["classes"]]
+        if style == "after-classes":
+            mm["decl_order"] = cls_names + cps
+        elif style == "interleaved":
+            order = cps + cls_names
+            rng.shuffle(order)
+            mm["decl_order"] = order          # classes are put back parents-first when rendered
+        else:
+            mm["decl_order"] = cps + cls_names
     return mm
 
 
@@ -647,6 +718,11 @@ def reductions(mm) -> List[dict]:
             m2 = copy.deepcopy(mm)
             del m2["cprims"][i]
             out.append(m2)
+    # the default text order (parents first), when the failure does not depend on the order
+    if "decl_order" in mm:
+        m2 = copy.deepcopy(mm)
+        del m2["decl_order"]
+        out.append(m2)
     # drop an invariant
     for kind in ("classes", "cprims"):
         for i, c in enumerate(mm[kind]):
